@@ -206,7 +206,8 @@ def judgeEnc (inp obs : List String) : Verdict :=
         (if !p.tc && (tcBit != decide (present < total)) && wellFormed wire then ["unsat:C04.tc_iff_truncated:tc-bit"] else []) ++
         (match back, expect with
          | .ok b, some e => if wellFormed wire && dump b != dump e then
-             [s!"unsat:C14.roundtrip:{if present < total then "truncated" else "complete"}"] else []
+             (if present < total then ["unsat:C04.truncated_is_prefix:sections-or-counts-differ", "unsat:C14.roundtrip:truncated"]
+              else ["unsat:C14.roundtrip:complete", "unsat:C03.wire_faithful:client-decodes-a-different-reply"]) else []
          | .error _, _ => if wellFormed wire then ["unsat:C14.roundtrip:own-decoder-rejects"] else []
          | _, _ => [])
       { corr := agreeIf (m == wire) s!"model={toHex m}",
